@@ -53,7 +53,7 @@ CLASSES = {
                       methsel={'clone': ['packet:Prototype._clone_from_pickle', 'packet:Prototype._clone_from_live_obj']}),
     # code cache (C15): the generator object, the class object being built, module objects of the import system
     'PacketClassBuilder': dict(module='packet_builder', bases=[], attrs={
-        'fields': 'list', 'sync_before_pack_methods': 'list', 'sync_after_unpack_methods': 'list'}),
+        'fields': 'list', 'fields_in_class': 'list', 'sync_before_pack_methods': 'list', 'sync_after_unpack_methods': 'list'}),
     'CodeGenerator': dict(module='codegen', bases=[], attrs={
         'pkt_class': 'ref:PktClass', 'generate_for_pack': 'bool', 'generate_for_unpack': 'bool'}),
     'PktClass': dict(module='packet', bases=[], attrs={'pack_impl': 'dyn', 'unpack_impl': 'dyn', '__name__': 'str'}),
